@@ -54,6 +54,51 @@ def build_harness(build):
     return rc == 0, out
 
 
+def merge_with_baseline(new_text, fp_path):
+    """The hand-written model refers to the literals of a source item by position (`<item>_f<i>`). When an item keeps its
+    structure, its regenerated literals are used, so a changed constant flows into the model and the theorems are re-checked
+    on it. When an item changed STRUCTURALLY (refactored, split, renamed, removed), positional names no longer mean what the
+    model assumes: the literals of that item are then frozen at their baseline values (run/Consts.baseline.lean) and the tie
+    to the code for that item is carried by the correspondence run alone (which is escalated for structural changes).
+    Returns (text, [frozen item names])."""
+    try:
+        base_fp = json.load(open(os.path.join(ROOT, 'run', 'fingerprints.json')))
+        cur_fp = json.load(open(fp_path))
+        base_txt = open(os.path.join(ROOT, 'run', 'Consts.baseline.lean')).read()
+    except (OSError, ValueError):
+        return new_text, []
+    items = sorted(base_fp, key=len, reverse=True)
+    def item_of(name):
+        m = re.match(r'^(.*)_(?:f|i)\d+$', name)
+        return m.group(1) if m and m.group(1) in base_fp else None
+    frozen = [k for k in base_fp if k not in cur_fp or cur_fp[k]['shape'] != base_fp[k]['shape'] or len(cur_fp[k]['lits']) != len(base_fp[k]['lits'])]
+    if not frozen:
+        return new_text, []
+    fz = set(frozen)
+    base_defs = {}
+    for line in base_txt.split('\n'):
+        m = re.match(r'^def (\w+) : ', line)
+        if m:
+            base_defs[m.group(1)] = line
+    out, seen = [], set()
+    for line in new_text.split('\n'):
+        m = re.match(r'^def (\w+) : ', line)
+        if m:
+            it = item_of(m.group(1))
+            if it in fz:
+                continue            # positional name of a restructured item: baseline value is used instead (below)
+            seen.add(m.group(1))
+        if line.strip() == 'end C':
+            continue
+        out.append(line)
+    out.append('-- items whose structure differs from the baseline: literals frozen at the baseline values (see run/check.py)')
+    for name, line in base_defs.items():
+        if item_of(name) in fz and name not in seen:
+            out.append(line)
+    out.append('end C')
+    return '\n'.join(out) + '\n', sorted(frozen)
+
+
 def regenerate():
     """translators: literals + fingerprints, manifests. Returns (ok, changed_items, log)."""
     os.makedirs(WORK, exist_ok=True)
@@ -64,6 +109,7 @@ def regenerate():
         return False, [], out
     dst = os.path.join(LEAN, 'Generated', 'Consts.lean')
     new = open(tmp_lean).read()
+    new, frozen = merge_with_baseline(new, fp)
     if not os.path.exists(dst) or open(dst).read() != new:
         open(dst, 'w').write(new)
     import gen_manifests
